@@ -16,6 +16,29 @@ CLAIMS = {
         design_ref="DESIGN.md §5 C17, §4.5",
         note="Trusted: TLC, the tagged JSON conversion (harness/tagged.py), Python dict semantics for str keys. Inputs outside the enumerated "
              "family are sampled only."),
+    "C16": dict(
+        technique="TLA+ operator Config.RunPipeline as oracle: TLC enumerates a bounded family of command lines, checks the statement as "
+                  "invariants (MC_Pipeline) and exports expected outcomes that are replayed through the real `asphalt run`; random command lines "
+                  "are run through the real command and validated by TLC against the operator (Trace_C16)",
+        text="Model checking of the pipeline specification (file merge order, --set application with escaped-dot split, service ladder, "
+             "service-over-top-level merge) on ~29k enumerated command lines, all replayed through the real click command, plus all override "
+             "keys of length<=5 over {a,b,.,\\} and thousands of seeded random command lines with !Env/!TextFile/!BinaryFile leaves; every "
+             "observed hand-off to run_application (or failure) is compared by TLC with RunPipeline.",
+        design_ref="DESIGN.md §5 C16, §4.5",
+        note="Trusted: TLC, PyYAML, click's option parsing, the observation seam (asphalt.core._cli.run_application replaced by a recorder, as "
+             "the repository's tests do). The corner 'top-level component + services.default' is unspecified and skipped."),
+    "C14": dict(
+        technique="TLA+ operator Config.BuildTree as oracle: TLC enumerates class tables x external configurations, checks the statement as "
+                  "invariants (MC_Tree) and exports expected trees replayed through the real start_component; random deeper scenarios are "
+                  "executed and validated by TLC (Trace_C14), including a second start from the same configuration object",
+        text="Model checking of the layering specification (hard-coded add_component defaults deep-merged under external `components`, "
+             "config-only children, type defaulting to the alias, kind/name aliases, default-name remapping only in start()) on 1,800 "
+             "enumerated scenarios plus thousands of random ones; for each, TLC compares the observed tree (path, class, constructor kwargs), "
+             "the names under which prepare()/start() additions are visible, the configuration object after the call and the tree of a second "
+             "start with BuildTree.",
+        design_ref="DESIGN.md §5 C14, §4.5",
+        note="Trusted: TLC, harness fixtures (verif_c14_fixture, a real dist-info directory providing entry points), component path observed via "
+             "current_context().path. Hard-coded child overridden by None and a root config containing 'type' are unspecified, not generated."),
 }
 
 PENDING_REASON = "check not built yet in this build session; planned (DESIGN.md §5)"
